@@ -125,6 +125,8 @@ def _model_job(n):
                 rows.append(np.concatenate([(x.numpy().reshape(-1) if x is not None else np.zeros(G.t[n].numel())) for x, n in zip(gr, leaves)]))
         Jt = np.array(rows).reshape(J.shape)
         cnt += 1
-        if (np.abs(Jt - J) > 1e-12 * (Ja + 1)).any():
+        from .world import spec_eps
+
+        if (np.abs(Jt - J) > 1e4 * spec_eps(spec) * (Ja + 1)).any():
             bad += 1
     return bad, cnt
